@@ -256,11 +256,16 @@ def query_all(h, conn, exported):
 def run_history(ops):
     h, conn, Obj = make_handler()
     exported = set()
+    instances = {}           # the same Python object is exported again after an unexport (every second time), as applications do
     for step, (op, p) in enumerate(ops):
         conn.sent.clear()
         try:
             if op == 'export':
-                h.exportObject(Obj(p))
+                if p in instances and step % 2 == 0:
+                    o = instances[p]
+                else:
+                    o = instances[p] = Obj(p)
+                h.exportObject(o)
                 exported.add(p)
                 kind = 'InterfacesAdded'
             else:
